@@ -27,13 +27,13 @@ prop( 'C05', [ 'S-STATUS', 'D-VALIDATE', 'W-ATTR', 'T-ALLOWED', 'T-TYPENAMES', '
       not_decided='that values read back equal the converted values written (value/history dependent).',
       technique='constant typestate on a statement CFG with exception edges; dominance / must-pass-through with correlated branches; service feasibility by test folding; table interval containment' )
 
-prop( 'C12', [ 'T-CLIENT-TYPES', 'P-BUNDLE', 'P-FRESH', 'T-PATHSYNTAX', 'S-COMPLETE' ],
+prop( 'C12', [ 'T-CLIENT-TYPES', 'P-BUNDLE', 'P-FRESH', 'T-PATHSYNTAX', 'S-COMPLETE', 'T-OPOFFSET' ],
       decides='P-BUNDLE: in connector.issue the keep-collecting condition conjoins the size test with equality of both route_path and '
               'send_path with those of the bundle, every yielded record carries ( index, sender_context ) of its wire request, sender_context is '
               'always derived from index, and index advances at most once per operation and after every flushed bundle; T-PATHSYNTAX: every '
               'delimiter format_path emits (@ / [ - ] . 0x) is recognised by parse_path/parse_path_elements/parse_path_component/parse_int; '
               'S-COMPLETE: both harvesting drivers compare issued vs harvested counts before completing; T-CLIENT-TYPES: every client.CIP_TYPES row takes (tag_type, size) from the parser class of its own name and its '
-              'integer validator accepts only values the class\'s struct format encodes.',
+              'integer validator accepts only values the class\'s struct format encodes.  T-OPOFFSET: parse_operations stores a byte offset iff the operation text has a non-empty \'+<number>\' part (presence of the text, so \'+0\' is kept).',
       not_decided='equality of result sequences across depth/bundling settings (dynamic).',
       technique='table extraction from AST + interval containment; guard-shape checks' )
 
@@ -41,7 +41,7 @@ prop( 'C16', [ 'T-RESERVED', 'D-DELEGATE', 'D-RESOLVE' ],
       decides='T-RESERVED: every non-dunder name that ordinary attribute lookup finds on a dotdict before __getattr__ (methods '
               'and class attributes of dotdict_base plus dict\'s public API) is refused as a key by the guarded leaf store; '
               'D-DELEGATE: attribute access, get, setdefault and membership are defined through __getitem__/__setitem__ and all '
-              'accessors split dotted keys with _resolve.',
+              'accessors split dotted keys with _resolve.  D-RESOLVE also: a first segment cut inside an index expression is extended exactly while its brackets are unbalanced (continuation test evaluated on sample segments).',
       not_decided='path semantics over operation sequences (lookup/iteration/copy agreement is a dynamic, history-dependent claim).',
       technique='name-set comparison over class AST; delegation-shape checks' )
 
@@ -51,14 +51,14 @@ prop( 'C19', [ 'M-EXTENT', 'M-TILE', 'M-BANK', 'M-LIMIT' ],
               'advances address and shrinks count by the same taken = min( count, limit ); M-BANK: the merge condition conjoins the '
               'same-10000-bank test with the strict reach test and nothing else (no condition may prevent overlapping ranges from merging), over sorted '
               'input; M-LIMIT: merge passes its limit through unchanged to shatter( base, length, limit=limit ) and shatter deduces the per-bank default '
-              'from the address of the range it splits.',
+              'from the address of the range it splits.  M-BANK also: the sweep is over all requested ranges (sorted( ranges ) itself, not a dict keyed by start address).',
       not_decided='disjointness/limit/reach arithmetic over all numeric inputs.',
       technique='def-use shape of the sweep loop (AST); guard conjunct classification' )
 
 prop( 'C20', [ 'T-TNET', 'P-CHAIN', 'G-CHUNK', 'G-REF' ],
       decides='T-TNET: every type tag dump/dump_dict/dump_list emits has a parse branch whose conversion is the enumerated inverse of '
               'the encoder idiom (same encoding name on both sides), dispatch is by exact type, payload framing splits at the first '
-              'colon and slices exactly the declared length, and the streaming machine has a DATA edge for every tag its TYPE state handles.',
+              'colon and slices exactly the declared length, and the streaming machine has a DATA edge for every tag its TYPE state handles.  T-TNET also: the incremental parser converts each tag like tnetstrings.parse (same decoder kind; for text the batch parser\'s default codec).',
       not_decided='value round trip for all values, nesting depth, chunking (dynamic).',
       technique='encoder/decoder idiom classification over dispatch chains (AST pattern matching); grammar extraction' )
 
@@ -91,7 +91,7 @@ prop( 'C06', [ 'X-SERVICES', 'P-REPLYBIT', 'P-ONE', 'P-PROCEED', 'D-ECHO', 'S-ST
       not_decided='framing of reply values, randomness of session handles, socket-level pipelining behaviour (dynamic).',
       technique='sibling exhaustiveness (set comparison of folded constants); path effect counting on the CFG; must-pass-through; zero-count store rules' )
 
-prop( 'C17', [ 'T-CMP', 'T-DURATION', 'T-LOCALIZE', 'T-RENDER' ],
+prop( 'C17', [ 'T-CMP', 'T-DURATION', 'T-LOCALIZE', 'T-RENDER', 'T-CACHE' ],
       decides='T-CMP: the six timestamp comparison operators form one family - __lt__/__gt__ shift by the class _epsilon = 10**-_precision, '
               '__le__/__ge__/__eq__/__ne__ are their negations/disjunction - and render( ms=True )/__str__ use the same _precision, so '
               'comparison and rendering resolution cannot drift apart; T-DURATION: each (unit, suffix) pair duration._format emits is the pair '
@@ -102,7 +102,7 @@ prop( 'C17', [ 'T-CMP', 'T-DURATION', 'T-LOCALIZE', 'T-RENDER' ],
               'fraction from one value rounded to the requested digits before any formatting (so a fraction that rounds up carries into the '
               'seconds), the fraction is the last digits+1 characters of its fixed-point rendering, digits default to _precision and are '
               'limited to 0..6, a parsed fraction is right-padded to microseconds, number_from_datetime = timegm( UTC tuple ) + '
-              'microsecond / 10**6 with true division, datetime_from_number = fromtimestamp( n, tz=zone ).',
+              'microsecond / 10**6 with true division, datetime_from_number = fromtimestamp( n, tz=zone ).  T-CACHE: every store to a timestamp\'s value outside __init__ is followed on every path by clearing the cached rendering of the SAME object; __init__ clears first and copies a cache only with the value it belongs to - so str() and the value of a timestamp cannot disagree.',
       not_decided='float rounding error itself, the contents of the time-zone database, millisecond equality of render/parse as a value.',
       technique='operator-family shape matching (AST patterns); unit/suffix table agreement incl. constant-regex group lookup; '
                 'def-use agreement (one rounded value feeds both the seconds and the fraction)' )
@@ -127,14 +127,14 @@ prop( 'C18', [ 'T-RECORD', 'H-PARSE', 'H-FILES', 'H-NATURAL', 'H-OPENER', 'H-PAC
               'propagated over the CFG with three-valued branch pruning and fed back from exit to entry to a fixpoint: no abstract state with '
               'ghost = 0 reaches the strict release, strict is set whenever the record loop starts on a new file, open() only in '
               'INITIAL/SWITCHING; X-STATES: every loader state has statename/statelogger entries, the '
-              'declared order INITIAL<...<COMPLETE<FAILED holds, truthiness is state < COMPLETE, only declared constants are assigned.',
+              'declared order INITIAL<...<COMPLETE<FAILED holds, truthiness is state < COMPLETE, only declared constants are assigned.  H-LOAD also: every return from inside the record loop comes after the pulled record was classified (a return at the top of the loop would drop the record the for-header already consumed).',
       not_decided='the end-to-end delivery against a concrete clock and schedule (which load() call delivers which record), millisecond '
                   'rounding of timestamps (C17), and the final register map as a value: these are decided only as far as the structural '
                   'clauses above are necessary conditions of them.',
       technique='writer/reader field-table agreement (AST patterns); forward data-flow and path counting over a statement CFG of '
                 'parse_record / reader.open / loader.load; typestate (finite abstract-state sets to a fixpoint) for the strict flag; decision-table evaluation of the file-selection predicates; state-table exhaustiveness' )
 
-prop( 'C04', [ 'F-FRAG', 'F-STATUS', 'D-VALIDATE', 'W-ATTR' ],
+prop( 'C04', [ 'F-FRAG', 'F-STATUS', 'D-VALIDATE', 'W-ATTR', 'S-EXT' ],
       decides='the form of the fragment arithmetic, by algebra on a linear normal form and by structure, never by evaluating it on sample '
               'numbers.  F-FRAG (Logix.reply_elements): the byte offset is split into quotient and remainder by the element size '
               '( off // siz, off - q * siz | off % siz | divmod ), siz = attribute.parser.struct_calcsize, the offset is honoured for the '
@@ -148,7 +148,7 @@ prop( 'C04', [ 'F-FRAG', 'F-STATUS', 'D-VALIDATE', 'W-ATTR' ],
               'request; a read replies attribute[beg:end]; its status expression, evaluated over the two possible orderings of end and '
               'endactual (end <= endactual by construction) through the non-STRUCT definitions of its locals, is 0x00 iff '
               'end == endactual and 0x06 otherwise; a write stores data[context].data into attribute[beg:end] then status 0x00.  '
-              'D-VALIDATE / W-ATTR: the range assertions of reply_elements and "only the write branch stores" (as for C05).',
+              'D-VALIDATE / W-ATTR: the range assertions of reply_elements and "only the write branch stores" (as for C05).  S-EXT: as for C14 (a non-final fragment reply carries no extended status word).',
       not_decided='the end-to-end reassembly (that the concatenation of the fragments of a driven transfer equals the requested elements) '
                   'as a statement about values - only the per-fragment clauses above, each a necessary condition of it; the STRUCT/UDT '
                   'byte-trimming branch (outside the property); client-side offset bookkeeping (the property drives the offsets).',
@@ -252,7 +252,7 @@ prop( 'C13', [ 'S-COMPLETE', 'P-MATCH', 'P-FRESH', 'P-BUNDLE', 'P-DISCARD', 'P-A
               'frame machine is terminal, discards its engine on any framing exception, raises StopIteration only between frames, and '
               '__exit__ refuses a partial frame; P-GATEWAY: proxy.__exit__ discards the gateway on any exception without suppressing it, '
               'close_gateway closes and clears it, open_gateway re-creates it under the lock, and every in-repo reification of a proxy I/O '
-              'generator is lexically inside `with <proxy>:` or a try whose handler closes the gateway.',
+              'generator is lexically inside `with <proxy>:` or a try whose handler closes the gateway.  P-GATEWAY also: a proxy I/O generator is ITERATED (not merely created) inside `with <proxy>:`.',
       not_decided='behaviour at each byte offset of a cut - the rules show that every failure kind has a raising/terminating path, not what the kernel delivers.',
       technique='sibling cross-check of drivers (counter feed analysis); dominance on the CFG; guard-shape matching; call-site protection (lexical with/try)' )
 
@@ -288,7 +288,7 @@ prop( 'C01', [ 'T-TYPES', 'L-AGREE', 'L-DEFAULT', 'L-CODEC', 'T-SEGMENTS', 'T-NC
                 'acceptance matching; spec-table comparison; linear normalisation' )
 
 prop( 'C14', [ 'L-SPEC', 'K-FORWARDS', 'L-AGREE', 'L-DEFAULT', 'L-CODEC', 'T-TYPES', 'T-SEGMENTS', 'T-NCP', 'K-NCPSTATE', 'A-OFFSETS', 'G-FRAME',
-               'S-STATUS', 'D-VALIDATE', 'W-ATTR', 'T-ALLOWED', 'T-ATTRKEYS', 'D-TYPE', 'X-SERVICES', 'P-REPLYBIT' ],
+               'S-STATUS', 'D-VALIDATE', 'W-ATTR', 'T-ALLOWED', 'T-ATTRKEYS', 'D-TYPE', 'X-SERVICES', 'P-REPLYBIT', 'S-EXT' ],
       decides='spec-layout clause.  L-SPEC: for the messages an independent Logix client uses (Register Session, SendRRData/SendUnitData with '
               'null-address/unconnected and connection-id/connected-data items, Unconnected Send, Forward Open small and large, Forward '
               'Close, Read/Write Tag [Fragmented], Multiple Service Packet, Get/Set Attribute, List Identity item) the parser layout '
@@ -296,6 +296,6 @@ prop( 'C14', [ 'L-SPEC', 'K-FORWARDS', 'L-AGREE', 'L-DEFAULT', 'L-CODEC', 'T-TYP
               'field identity), and every reply-producer variant is one of the spec reply layouts; K-FORWARDS: the key stored by '
               'forward_open, the key UCMM.request builds for connected data and the prefix forward_close compares are the same '
               '(peer host, peer port, O->T connection id) triple; plus the shared C01 layout rules and the server-side clauses an independent client '
-              'observes (documented error statuses S-STATUS/D-VALIDATE, who-may-write, type table, attribute allocation, reply type, reply bit).',
+              'observes (documented error statuses S-STATUS/D-VALIDATE, who-may-write, type table, attribute allocation, reply type, reply bit).  S-EXT: every success status (0x00 and 0x06) is followed unconditionally by the removal of the pre-loaded extended status, so a partial-data reply has the layout an independent client decodes.',
       not_decided='a live pylogix session (values, statuses, timing) - the spec tables are the static stand-in for the reference encoder.',
       technique='spec-table vs extracted-layout comparison; key-shape agreement across call sites' )
